@@ -764,8 +764,11 @@ def native_witness(oracle, template, assign, ref=None):
             m = re.search(r'(?<![A-Za-z0-9_."])%s(?![A-Za-z0-9_"])' % re.escape(n), prog[prog.index('{'):])
             if m:
                 names.append(n); offs.append(prog.index('{') + m.start())
+    if ref is None:
+        # ill-typed (or no reference): every position must still answer
+        offs = list(range(len(prog)))
     r = oracle.ask('hover', json.dumps({'text': prog, 'offsets': offs}))
-    if not isinstance(r, dict) or 'panic' in r or 'died' in r:
+    if not isinstance(r, dict) or 'panic' in r or 'died' in r or 'hover' not in r:
         return 'hover on %r: %s' % (prog, str(r)[:300])
     if ref is None:
         return None
